@@ -7,7 +7,7 @@ From Coq Require Import ZArith String Ascii List Bool.
 Require Import DS.Model.PyStr DS.Gen.GenNorm DS.Model.GC DS.Proofs.GCNormProofs DS.Proofs.GCProofs DS.Proofs.GCFaultProofs.
 Require Import DS.Model.GCPointer DS.Proofs.GCPointerProofs DS.Proofs.PyStrProofs DS.Model.GCHist DS.Proofs.GCHistProofs.
 Require Import DS.Model.Doc DS.Gen.GenDoc DS.Model.GCDoc DS.Proofs.GCDocProofs.
-Require Import DS.Gen.GenGCMarker DS.Proofs.GCMarkerGenProofs.
+Require Import DS.Gen.GenGCMarker DS.Proofs.GCMarkerGenProofs. Require Import DS.Proofs.MarkerKeyProofs.
 Require Import DS.Gen.GenLocalList DS.Model.LocalList DS.Proofs.LocalListProofs.
 Import ListNotations.
 Open Scope string_scope.
@@ -138,19 +138,38 @@ Proof. exact marker_keep. Qed.
 Print Assumptions C07_marker_keep.
 
 (* The writer's marker naming and the collector's fallback agree (both REGENERATED: Gen/GenNorm.v register_marker_path /
-   register_marker_payload from Transaction._register_inflight, marker_fallback from GarbageCollector._marker_targets): for
-   every file a transaction registers -- under data/ or metadata/manifests/, written with or without a leading slash, its own
-   name free of "/" -- the marker written for it is a marker for the collector, and the paths protected when that marker's
-   payload CANNOT be read contain the registered file.  (C07_marker_keep: a marker that is present protects what its name
-   can denote; this theorem: what the name denotes includes what the writer registered.) *)
-Theorem C07_registered_marker_fallback_covers : forall (dir name : string), In dir registered_dirs -> has_char slash name = false ->
-  let file := (dir ++ String slash name)%string in
+   register_marker_payload from Transaction._register_inflight, marker_fallback from GarbageCollector._marker_targets), for
+   EVERY path Transaction.append_files accepts (the REGENERATED guard append_accepts_path: any canonical path below data/,
+   in any sub-directory, with or without leading slashes): the marker written for it is a marker for the collector, and
+   what is protected when that marker's payload CANNOT be read is exactly the registered file.  (C07_marker_keep: a marker
+   that is present protects what its key can denote; this theorem: what the key denotes IS what the writer registered.)
+   With markers keyed by the file's basename -- the unchanged library -- this is false (C07_basename_marker_fallback_refuted). *)
+Theorem C07_registered_marker_fallback_covers : forall (normpath : string -> string) (file : string),
+  append_accepts_path normpath file = true ->
   is_marker_key (register_marker_path file)
-  /\ In (resolve (register_marker_payload file)) (marker_fallback (basename (register_marker_path file)))
-  /\ (startswith "data/" (resolve (register_marker_payload file)) = true
-      \/ startswith "metadata/manifests/" (resolve (register_marker_payload file)) = true).
-Proof. exact registered_marker_fallback_covers. Qed.
+  /\ marker_fallback (register_marker_path file) (basename (register_marker_path file)) = [resolve (register_marker_payload file)]
+  /\ startswith "data/" (resolve (register_marker_payload file)) = true.
+Proof. exact accepted_marker_fallback_covers. Qed.
 Print Assumptions C07_registered_marker_fallback_covers.
+
+(* ... and for every other file a transaction registers (the manifests and the manifest list of a commit attempt, under
+   metadata/manifests/): any table-relative path.  `name_candidates` is the `marker_denotes` of an unreadable marker
+   (Model/GC.v) and the content of wf_store's wf_markers: a store holding the marker of ANY registered file satisfies it. *)
+Theorem C07_registered_marker_key_denotes : forall (file : string), table_relative (resolve file) ->
+  is_marker_key (register_marker_path file)
+  /\ name_candidates (register_marker_path file) = [resolve (register_marker_payload file)]
+  /\ marker_fallback (register_marker_path file) (basename (register_marker_path file)) = [resolve (register_marker_payload file)].
+Proof. exact registered_marker_fallback_covers. Qed.
+Print Assumptions C07_registered_marker_key_denotes.
+
+(* The naming of the unchanged library (marker keyed by the file's BASENAME, fallback guessed from it; written down by hand in
+   Proofs/MarkerKeyProofs.v): an accepted file in a sub-directory of data/ is not among the paths protected when its marker
+   cannot be read. *)
+Theorem C07_basename_marker_fallback_refuted :
+  exists f, append_accepts_path (fun s => s) f = true
+            /\ ~ In (resolve f) (basename_marker_fallback (basename (basename_marker_path f))).
+Proof. exact basename_marker_fallback_misses. Qed.
+Print Assumptions C07_basename_marker_fallback_refuted.
 
 (* ---- STRUCTURED damage: the file is still a good JSON / Avro document, but a key is gone, null, or of another type.
    The readers' demands are the shapes regenerated from the source (Gen/GenDoc.v); `ext` is the one external validation
@@ -350,14 +369,18 @@ Proof.
   exists "metadata/manifests/l1.avro". repeat split; vm_compute; auto.
 Qed.
 
-(* Non-vacuity of C07_registered_marker_fallback_covers: the marker of a data file and of a manifest written during commit *)
+(* Non-vacuity of C07_registered_marker_fallback_covers / _key_denotes: an accepted file in a sub-directory, a manifest written
+   during commit, a marker of an older version (bare name: both directories), and a store holding a sub-directory file with
+   its marker is well-formed (wf_markers) *)
 Example C07_marker_naming_nonvacuous :
-  register_marker_path "data/f1.parquet" = "metadata/inflight/f1.parquet.inflight"
-  /\ marker_fallback (basename (register_marker_path "data/f1.parquet")) = ["data/f1.parquet"; "metadata/manifests/f1.parquet"]
-  /\ register_marker_path "/metadata/manifests/manifest_7.avro" = "metadata/inflight/manifest_7.avro.inflight"
-  /\ In (resolve (register_marker_payload "/metadata/manifests/manifest_7.avro"))
-        (marker_fallback (basename (register_marker_path "/metadata/manifests/manifest_7.avro")))
-  /\ In "data" registered_dirs /\ has_char slash "f1.parquet" = false.
+  append_accepts_path (fun s => s) "/data/p1/x.parquet" = true
+  /\ register_marker_path "/data/p1/x.parquet" = "metadata/inflight/data/p1/x.parquet.inflight"
+  /\ marker_fallback (register_marker_path "/data/p1/x.parquet") (basename (register_marker_path "/data/p1/x.parquet")) = ["data/p1/x.parquet"]
+  /\ register_marker_path "/metadata/manifests/manifest_7.avro" = "metadata/inflight/metadata/manifests/manifest_7.avro.inflight"
+  /\ name_candidates (register_marker_path "/metadata/manifests/manifest_7.avro") = ["metadata/manifests/manifest_7.avro"]
+  /\ marker_fallback "metadata/inflight/f1.parquet.inflight" "f1.parquet.inflight" = ["data/f1.parquet"; "metadata/manifests/f1.parquet"]
+  /\ wf_storeb [] [("data/p1/x.parquet", mkObj 0 CData);
+                   (register_marker_path "data/p1/x.parquet", mkObj 100 (CMarker (Some (register_marker_payload "data/p1/x.parquet"))))] = true.
 Proof. repeat split; vm_compute; auto. Qed.
 
 (* Non-vacuity of the document theorems: a metadata document for the example table is accepted and yields the example's
